@@ -205,6 +205,16 @@ impl GenericSocketBackend {
     }
 
     pub(crate) async fn send_round_robin(&self, message: Message) -> ZmqResult<PeerIdentity> {
+        // (`split_off` and `pop_front` can leave a message without frames)
+        let message = match message {
+            Message::Message(m) if m.is_empty() => {
+                return Err(ZmqError::ReturnToSender {
+                    reason: "Unable to send a message without frames",
+                    message: m,
+                })
+            }
+            message => message,
+        };
         // In normal scenario this will always be only 1 iteration
         loop {
             let next_peer_id = match self.round_robin.next() {
